@@ -368,10 +368,27 @@ def soc_stable_root(rep, F, tag, rid):
         for val, ret, ev, tr in Walker(f, local_stores=True).leaves():
             ts = [str(e[2]) for e in ev if e[0] == 'assign' and e[1] == 't' and e[2] is not None]
             for t in ts:
-                m = re.fullmatch(r'(sub|add)\(neg\((.*)\), sqrt\((.*)\)\)', t)
-                if not R.check(m is not None and m.group(2).count('(') == m.group(2).count(')'), 'root-shape' + tag, 'the root helper t is %s, expected -b -/+ sqrt(d)' % t[:100], f.loc()):
+                # -b - sqrt(d):  sub(neg(b), sqrt(d)) | neg(add(b, sqrt(d))) | neg(add(sqrt(d), b));   -b + sqrt(d):  add(neg(b), sqrt(d)) | add(sqrt(d), neg(b)) | sub(sqrt(d), b)
+                op = B = None
+                a_ = split_args(t) if '(' in t else []
+                head = t[:t.index('(')] if '(' in t else ''
+                sq = lambda x: x.startswith('sqrt(')
+                ng = lambda x: x[4:-1] if x.startswith('neg(') and x.endswith(')') else None
+                if head in ('sub', 'add') and len(a_) == 2:
+                    if ng(a_[0]) is not None and sq(a_[1]):
+                        op, B = head, ng(a_[0])
+                    elif head == 'add' and sq(a_[0]) and ng(a_[1]) is not None:
+                        op, B = 'add', ng(a_[1])
+                    elif head == 'sub' and sq(a_[0]) and not sq(a_[1]):
+                        op, B = 'add', a_[1]
+                elif head == 'neg' and len(a_) == 1 and a_[0].startswith('add('):
+                    b_ = split_args(a_[0])
+                    if len(b_) == 2 and sq(b_[1]) and not sq(b_[0]):
+                        op, B = 'sub', b_[0]
+                    elif len(b_) == 2 and sq(b_[0]) and not sq(b_[1]):
+                        op, B = 'sub', b_[1]
+                if not R.check(op is not None, 'root-shape' + tag, 'the root helper t is %s, expected -b -/+ sqrt(d)' % t[:100], f.loc()):
                     continue
-                op, B = m.group(1), m.group(2)
                 sgn = None
                 for k, v in val.items():
                     if k in ('le(zero(), %s)' % B, 'lt(zero(), %s)' % B):
